@@ -23,6 +23,7 @@ type Clause struct {
 	Where  string // file:line
 	KnownK string // id of known finding carve-out attached (if any)
 	Needs  []string // labels of the clauses whose assumed facts this obligation may use (empty: all)
+	Split  int      // >0: one obligation per path into the nearest join(s), this many joins deep
 }
 
 func (c *Clause) Tag() string {
@@ -194,7 +195,18 @@ func (cs *Contracts) loadFile(path string, goFile bool) error {
 				}
 				c.Label = m[2]
 				if m[3] != "" {
-					c.Needs = strings.Split(m[3], ",")
+					for _, nd := range strings.Split(m[3], ",") {
+						// "split" / "split2": discharge the obligation once per path into the nearest join(s)
+						if nd == "split" {
+							c.Split = 1
+						} else if nd == "split2" {
+							c.Split = 2
+						} else if nd == "split3" {
+							c.Split = 3
+						} else {
+							c.Needs = append(c.Needs, nd)
+						}
+					}
 				}
 				rest = rest[len(m[0]):]
 			}
